@@ -15,9 +15,29 @@ MA='amd/driver/internal/memoryallocator.go'
 EMU='amd/emu/computeunit.go'
 TIM='amd/timing/cu/wfdispatcher.go'
 DEV='amd/driver/internal/device.go'
-U_MULTI="""	dev := d.ActualGPUs[d.nextActualGPUIndex]
-	pAddrs = dev.allocateMultiplePages(numPages)
-	d.nextActualGPUIndex = (d.nextActualGPUIndex + 1) % len(d.ActualGPUs)
+DRV='amd/driver/driver.go'
+U_MULTI="""	// Serve the request from the first member GPU, in round-robin order, that
+	// has the room for it.
+	for i := 0; i < len(d.ActualGPUs); i++ {
+		devIndex := (d.nextActualGPUIndex + i) % len(d.ActualGPUs)
+		dev := d.ActualGPUs[devIndex]
+
+		if !dev.MemState.canAllocate(numPages) {
+			continue
+		}
+
+		pAddrs = dev.allocateMultiplePages(numPages)
+		d.nextActualGPUIndex = (d.nextActualGPUIndex + 1) % len(d.ActualGPUs)
+
+		return pAddrs
+	}
+
+	// No member can serve the request alone: take the pages one by one, which
+	// skips full members and panics only when all of them are full.
+	for i := 0; i < numPages; i++ {
+		pAddrs = append(pAddrs, d.allocateUnifiedGPUPage())
+	}
+
 	return pAddrs
 }
 """
@@ -52,18 +72,10 @@ MUTS={
 }
 """),
  'c10-u1-unified-single-page-ignores-full-members': (DEV, "		if dev.MemState.noAvailablePAddrs() {\n			continue\n		}\n\n		devSelected = dev\n", "		devSelected = dev\n"),
- 'c10-u1b-unified-single-page-always-first-member': (DEV, "		dev := d.ActualGPUs[devIndex]\n", "		dev := d.ActualGPUs[devIndex*0]\n"),
- 'c10-u2-multi-page-round-robin-not-advanced': (DEV, U_MULTI, """	dev := d.ActualGPUs[d.nextActualGPUIndex]
-	pAddrs = dev.allocateMultiplePages(numPages)
-	return pAddrs
-}
-"""),
- 'c10-u3-multi-page-round-robin-without-modulo': (DEV, U_MULTI, """	dev := d.ActualGPUs[d.nextActualGPUIndex]
-	pAddrs = dev.allocateMultiplePages(numPages)
-	d.nextActualGPUIndex = d.nextActualGPUIndex + 1
-	return pAddrs
-}
-"""),
+ 'c10-u1b-unified-single-page-always-first-member': (DEV, "		dev := d.ActualGPUs[devIndex]\n\n		if dev.MemState.noAvailablePAddrs() {", "		dev := d.ActualGPUs[devIndex*0]\n\n		if dev.MemState.noAvailablePAddrs() {"),
+ 'c10-u2-multi-page-round-robin-not-advanced': (DEV, "		pAddrs = dev.allocateMultiplePages(numPages)\n		d.nextActualGPUIndex = (d.nextActualGPUIndex + 1) % len(d.ActualGPUs)\n", "		pAddrs = dev.allocateMultiplePages(numPages)\n"),
+ 'c10-u3a-multi-page-room-check-dropped': (DEV, "		if !dev.MemState.canAllocate(numPages) {\n			continue\n		}\n", ""),
+ 'c10-u3b-room-check-off-by-one': ('amd/driver/internal/devicememstateinterface.go', "	return len(dms.availablePAddrs) >= numPages\n", "	return len(dms.availablePAddrs) >= numPages-1\n"),
  'c10-u4a-distribute-last-remainder-page-skipped': ('amd/driver/distributor.go', "	for i := uint64(0); i < remainingPages; i++ {", "	for i := uint64(0); i+1 < remainingPages; i++ {"),
  'c10-u4b-distribute-last-remainder-page-skipped-count-intact': ('amd/driver/distributor.go', "	for i := uint64(0); i < remainingPages; i++ {", "	if remainingPages > 0 {\n		byteAllocatedOnEachGPU[lastAllocatedGPU] += pageSize\n	}\n	for i := uint64(0); i+1 < remainingPages; i++ {"),
  'c10-u5-unify-member-lookup-off-by-one': ('amd/driver/api.go', "		dev.ActualGPUs = append(dev.ActualGPUs, d.devices[gpuID])", "		dev.ActualGPUs = append(dev.ActualGPUs, d.devices[gpuID-1])"),
@@ -87,6 +99,13 @@ MUTS={
 }
 """),
  'c10-u8-remap-onto-unified-records-first-member-range-check-off': (MA, "	return pAddr >= state.getInitialAddress() &&\n		pAddr < state.getInitialAddress()+state.getStorageSize()", "	return pAddr >= state.getInitialAddress() &&\n		pAddr <= state.getInitialAddress()+state.getStorageSize()"),
+ # ---- C10, page-migration preparation (added after seed5-c10 was missed)
+ 'c10-v0-seed5-migration-rehomes-existing-entry': (DRV, "	newPage.DeviceID = gpuID + 1\n\n	newPage.IsMigrating = true\n	d.pageTable.Update(newPage)\n", "	page.DeviceID = gpuID + 1\n	page.Unified = true\n	page.IsMigrating = true\n	d.pageTable.Update(page)\n"),
+ 'c10-v1-given-vaddr-alloc-does-not-update-mirror': (MA, "	a.vAddrToPageMapping[pageKey{page.PID, page.VAddr}] = page\n	a.pageTable.Update(page)\n\n	return page", "	a.pageTable.Update(page)\n\n	return page"),
+ 'c10-v2-migration-records-zero-based-gpu': (DRV, "	newPage.DeviceID = gpuID + 1\n", "	newPage.DeviceID = gpuID\n"),
+ 'c10-v3-migration-allocates-on-zero-based-gpu': (DRV, "context.pid, int(gpuID+1), vAddr, true)", "context.pid, int(gpuID), vAddr, true)"),
+ 'c10-v4-migration-skips-page-table-update': (DRV, "	newPage.IsMigrating = true\n	d.pageTable.Update(newPage)\n", "	newPage.IsMigrating = true\n"),
+ 'c10-v5-page-copy-reads-from-the-new-frame': (DRV, "				req.ToReadFromPhysicalAddress = oldPAddr\n", "				req.ToReadFromPhysicalAddress = page.PAddr + 0*oldPAddr\n"),
  # ---- C08
  'c08-n1-partial-size-off-by-one': ('amd/kernels/gridbuilder.go', "		xToAllocate := min(xLeft, int(b.packet.WorkgroupSizeX))", "		xToAllocate := min(xLeft+1, int(b.packet.WorkgroupSizeX))"),
  'c08-n2-exec-mask-shifted': ('amd/kernels/gridbuilder.go', "wf.InitExecMask |= 1 << uint32(inWGID%wavefrontSize)", "wf.InitExecMask |= 1 << uint32((inWGID+1)%wavefrontSize)"),
